@@ -455,8 +455,25 @@ class Walk:
                     and self._parse_or_raise(n):
                 self.events.add('parse-or-raise@%s' % n.lineno)
                 return st
-        self._fail('C04-D1', 'used-before', n, 'the bytes read are used here before they have been reported to the read '
-                   'listeners (only len(), truthiness/endswith tests and a parse whose failure raises may come first)', key)
+        # `left = left - len(data)` is the spelled-out form of the accounting decrement
+        if n.kind == 'stmt' and isinstance(s, ast.Assign) and len(s.targets) == 1 and isinstance(s.targets[0], ast.Name) \
+                and isinstance(s.value, ast.BinOp) and isinstance(s.value.op, ast.Sub) and isinstance(s.value.left, ast.Name) \
+                and s.value.left.id == s.targets[0].id and _is_len_of(s.value.right, st.al):
+            return st._replace(acct=tuple(sorted(st.acct + (s.targets[0].id,))))
+        # A use that does not rebind the bytes (decoding them, writing the decoded form) may come before the report as long
+        # as the report still happens on every normal path - which the rest of this walk decides.  bytes are immutable, so
+        # only a re-binding of the tracked name can change what is reported.
+        stored = set()
+        if n.kind == 'stmt':
+            for x in ast.walk(s):
+                if isinstance(x, ast.Name) and isinstance(x.ctx, (ast.Store, ast.Del)):
+                    stored.add(x.id)
+        if n.kind == 'stmt' and not (stored & tracked) and not isinstance(s, (ast.Return, ast.Raise)) \
+                and not any(isinstance(x, (ast.Yield,)) for x in ast.walk(s)):
+            self.events.add('use-before-report@%s' % n.lineno)
+            return st
+        self._fail('C04-D1', 'used-before', n, 'the bytes read are re-bound or handed out here before they have been reported to the '
+                   'read listeners', key)
         return None
 
     def _parse_or_raise(self, n):
@@ -1746,7 +1763,17 @@ def _d6(ctx):
             ck.expect(a is not None and norm_text(a) == 'self.%s' % rs.field, 'C04-D6', fi.qual, norm_text(c),
                       '%s writes %s, not the record of this exchange (self.%s)' % (fi.name, norm_text(a) if a is not None else '?', rs.field),
                       fi.loc(c))
-            seeks = [s for s in U.calls(fn, attr='seek') if norm_text(s.func.value) == 'self.%s.block_file' % rs.field
+            # the block file may be addressed through the record or through the session field it was bound from
+            aliases = {'self.%s.block_file' % rs.field}
+            for m_ in hci.methods.values():
+                for st_ in walk_no_nested(m_.node):
+                    if isinstance(st_, ast.Assign):
+                        tg = [norm_text(t) for t in st_.targets]
+                        if 'self.%s.block_file' % rs.field in tg:
+                            aliases |= {t for t in tg if t.startswith('self.')}
+                            if isinstance(st_.value, ast.Attribute) and U.is_self_attr(st_.value):
+                                aliases.add(norm_text(st_.value))
+            seeks = [s for s in U.calls(fn, attr='seek') if norm_text(s.func.value) in aliases
                      and len(s.args) == 1 and isinstance(s.args[0], ast.Constant) and s.args[0].value == 0]
             sn = [n for s in seeks for n in _nodes_of_call(cfg, pm, s)]
             wn = _nodes_of_call(cfg, pm, c)
@@ -1963,9 +1990,15 @@ def _d6_emission(ctx):
                     md = U.kwarg(ce, 'mode', 1)
                     if isinstance(md, ast.Constant) and 'a' in str(md.value):
                         outs.add(item.optional_vars.id)
-    loops = [n for n in cfg.nodes if n.kind == 'for' and isinstance(n.stmt.iter, ast.Name) and n.stmt.iter.id == rparam
-             and isinstance(n.stmt.target, ast.Name)]
-    ck.expect(bool(loops) and bool(outs), 'C04-D6', wr.qual, 'for chunk in record: <archive>.write(chunk)',
+    def _is_record_iter(e):
+        return (isinstance(e, ast.Name) and e.id == rparam) or (
+            isinstance(e, ast.Call) and isinstance(e.func, ast.Name) and e.func.id == 'iter' and len(e.args) == 1
+            and isinstance(e.args[0], ast.Name) and e.args[0].id == rparam)
+    loops = [n for n in cfg.nodes if n.kind == 'for' and _is_record_iter(n.stmt.iter) and isinstance(n.stmt.target, ast.Name)]
+    # the whole serialisation in one write is equivalent: <archive>.write(bytes(record)) / b''.join(record)
+    whole = [c for c in U.calls(fn, attr='write') if isinstance(c.func.value, ast.Name) and c.func.value.id in outs and len(c.args) == 1
+             and (norm_text(c.args[0]) in ('bytes(%s)' % rparam, "b''.join(%s)" % rparam, "b''.join(iter(%s))" % rparam))]
+    ck.expect((bool(loops) or len(whole) == 1) and bool(outs), 'C04-D6', wr.qual, 'for chunk in record: <archive>.write(chunk)',
               'write_record no longer iterates the record into the archive opened for append', wr.loc())
 
     def written(n, s, al):
